@@ -85,7 +85,7 @@ fn c01_one(ti: usize, data: &[u8], extreme: Option<usize>, l: &mut Local) -> Cas
 }
 
 pub fn c01(ctx: &Ctx) {
-    let n = ctx.tier.pick(60_000, 2_000_000);
+    let n = ctx.tier.pick(600_000, 6_000_000);
     ctx.par_proptest("corpus-types", n, || arb_case(|t| t.roundtrip.is_some()), |(ti, d), l| c01_one(*ti, d, None, l));
     let ex = all_extremes(|t| t.roundtrip.is_some());
     ctx.par_range("corpus-extremes", ex.len() as u64, |i, l| c01_one(ex[i as usize].0, &[], Some(ex[i as usize].1), l));
@@ -179,7 +179,7 @@ pub fn c12(ctx: &Ctx) {
         let idx = &idx;
         ctx.par_range("extremes-and-tightness", idx.len() as u64, move |i, l| c12_tight(idx[i as usize], l));
     }
-    let n = ctx.tier.pick(200_000, 5_000_000);
+    let n = ctx.tier.pick(2_000_000, 20_000_000);
     ctx.par_proptest("random-values", n, || arb_case(|t| t.max_size.is_some()), |(ti, d), l| c12_one(*ti, d, None, l).map(|_| ()));
 }
 
@@ -283,7 +283,7 @@ pub fn c14(ctx: &Ctx) {
     ctx.extra.lock().unwrap().insert("generated_corpus_seed".into(), json!(corpus::generated::SEED));
     let ex = all_extremes(|t| t.schema.is_some());
     ctx.par_range("extremes", ex.len() as u64, |i, l| c14_one(ex[i as usize].0, &[], Some(ex[i as usize].1), l));
-    let n = ctx.tier.pick(150_000, 4_000_000);
+    let n = ctx.tier.pick(2_000_000, 20_000_000);
     ctx.par_proptest("random-values", n, || arb_case(|t| t.schema.is_some()), |(ti, d), l| c14_one(*ti, d, None, l));
 }
 
@@ -388,7 +388,7 @@ fn c17_one(ti: usize, data: &[u8], extreme: Option<usize>, l: &mut Local) -> Cas
 }
 
 pub fn c17(ctx: &Ctx) {
-    let n = ctx.tier.pick(100_000, 3_000_000);
+    let n = ctx.tier.pick(1_000_000, 10_000_000);
     ctx.par_proptest(
         "corpus-types",
         n,
